@@ -150,6 +150,10 @@ namespace vf::rt {
         static constexpr std::size_t nrec = 1u << 13;
         Rec* rec = nullptr;
         std::atomic<std::uint64_t> rec_next{0};
+        // diagnostics only: what the main thread is waiting for right now (static string)
+        std::atomic<char const*> main_wait_label{nullptr};
+        // measurement only: longest run of consecutive quiescent samples in which the runtime's bookkeeping was not settled
+        std::atomic<int> unsettled_quiet_max{0};
     };
     inline Globals& G()
     {
@@ -162,6 +166,14 @@ namespace vf::rt {
     {
         if (G().verdict_written.exchange(1) == 0)
         {
+            // (triage aid for the authors, never set by MANIFEST commands: thread backtraces of the failing child)
+            if (char const* dir = std::getenv("VERIF_DEBUG_GDB"))
+            {
+                std::string cmd = "gdb -p " + std::to_string(getpid()) + " -batch -ex 'thread apply all bt 25' > " + dir + "/" + oracle + "-" +
+                    std::to_string(getpid()) + ".txt 2>&1";
+                int r = std::system(cmd.c_str());
+                (void) r;
+            }
             Outcome o = Outcome::fail(oracle, msg);
             o.counters["phases"] = static_cast<long long>(G().phase_counter.load());
             std::string s = o.serialize();
@@ -436,6 +448,7 @@ namespace vf::rt {
         std::thread th;
         std::atomic<bool> stop{false};
         int K = 6;
+        int K_stuck = 100;    // see the "stuck" verdict below (4 s; 8 s on an overloaded machine, like stop mode)
         int period_ms = 40;
         // stop mode: used around finalize()/stop(), where pools may be torn down at any moment and
         // must not be sampled.  The verdict then rests on harness-side facts only: every generated
@@ -490,7 +503,8 @@ namespace vf::rt {
         {
             // (environment is read on the calling thread: getenv is not safe against a concurrent setenv)
             double dump_after = std::getenv("VERIF_DEBUG_DUMP") ? std::atof(std::getenv("VERIF_DEBUG_DUMP")) : 0;
-            th = std::thread([this, dump_after] {
+            char const* debug_unsettled_dir = std::getenv("VERIF_DEBUG_UNSETTLED");
+            th = std::thread([this, dump_after, debug_unsettled_dir] {
                 int quiet = 0, stranded = 0, ll_samples = 0, phantom_n = 0;
                 std::uint64_t phantom_phase = 0;
                 std::uint64_t ll_progress = 0, ll_phase = 0, ll_phase0 = 0;
@@ -596,12 +610,41 @@ namespace vf::rt {
                                 " consecutive samples (" + d + ", activation counter unchanged) and no external actor is alive: nobody can ever deliver it; " + extra);
                     }
                     long long exp_susp = G().expected_suspended.load();
+                    {
+                        // (measurement only: how long does the "nothing left to run, bookkeeping not finished" state last in passing cases?)
+                        bool unsettled = susp <= exp_susp && pend == 0 && static_cast<long long>(pika::threads::detail::get_global_activity_count()) > exp_susp;
+                        if (unsettled && quiet > G().unsettled_quiet_max.load()) G().unsettled_quiet_max.store(quiet);
+                        // (triage aid, never set by MANIFEST commands: look at the process while it is in that state)
+                        if (unsettled && (quiet == 3 || quiet == 12) && debug_unsettled_dir)
+                        {
+                            char const* lbl = G().main_wait_label.load();
+                            std::string base = std::string(debug_unsettled_dir) + "/unsettled-" + std::to_string(getpid()) + "-q" + std::to_string(quiet);
+                            std::string cmd = "(echo '" + d + " activity=" + std::to_string(static_cast<long long>(pika::threads::detail::get_global_activity_count())) +
+                                " exp_susp=" + std::to_string(exp_susp) + " wait=" + (lbl ? lbl : "?") + " :: " + (G().diagnose ? G().diagnose() : std::string()) +
+                                "'; gdb -p " + std::to_string(getpid()) + " -batch -ex 'thread apply all bt 30') > " + base + ".txt 2>&1";
+                            int r = std::system(cmd.c_str());
+                            (void) r;
+                        }
+                    }
                     if (quiet >= K && susp <= exp_susp && pend == 0 && static_cast<long long>(pika::threads::detail::get_global_activity_count()) <= exp_susp) { quiet = 0; continue; }
+                    // "stuck" (no suspended task beyond the expected ones, nothing pending): the only positive fact is that the global activity
+                    // count has not come down, i.e. some OS thread has not finished its bookkeeping for a finished task.  A leak is
+                    // permanent, an OS thread that is merely not running (host / CPU starvation) is not: this verdict waits K_stuck samples,
+                    // the same window as the equivalent rule of stop mode (stuck_in_stop).
+                    if (pend == 0 && susp <= exp_susp)
+                    {
+                        int need = K_stuck;
+                        double la[1] = {0};
+                        if (getloadavg(la, 1) == 1 && la[0] > 2.0 * static_cast<double>(std::thread::hardware_concurrency())) need = 2 * K_stuck;
+                        if (quiet < need) continue;
+                    }
                     if (quiet >= K)
                     {
                         std::string extra = G().diagnose ? G().diagnose() : std::string();
+                        extra += "; global activity count " + std::to_string(static_cast<long long>(pika::threads::detail::get_global_activity_count()));
+                        if (char const* lbl = G().main_wait_label.load()) extra += std::string("; main thread waits in: ") + lbl;
                         fail_now(pend > 0 ? "dropped_task_quiescent" : susp > exp_susp ? "deadlock_quiescent" : "stuck_quiescent",
-                            "runtime quiescent for " + std::to_string(K) + " consecutive samples (" + d +
+                            "runtime quiescent for " + std::to_string(quiet) + " consecutive samples (" + d +
                                 ", phase counter unchanged, no external actor) while the main thread still waits; " + extra);
                     }
                 }
@@ -616,8 +659,9 @@ namespace vf::rt {
 
     struct MainWaiting
     {
-        MainWaiting() { G().main_waiting.fetch_add(1); }
-        ~MainWaiting() { G().main_waiting.fetch_sub(1); }
+        char const* prev = nullptr;
+        explicit MainWaiting(char const* label = nullptr) { prev = G().main_wait_label.exchange(label); G().main_waiting.fetch_add(1); }
+        ~MainWaiting() { G().main_waiting.fetch_sub(1); G().main_wait_label.store(prev); }
     };
     struct MainWaitingForSignal
     {
@@ -638,5 +682,9 @@ namespace vf::rt {
         o.counters["suspends"] = static_cast<long long>(G().suspends.load());
         o.counters["active_retry"] = static_cast<long long>(G().active_retry.load());
         o.counters["store_fail"] = static_cast<long long>(G().store_fail.load());
+        int uq = G().unsettled_quiet_max.load();
+        o.counters["cases_quiescent_but_unsettled_for_1_or_more_samples"] = uq >= 1;
+        o.counters["cases_quiescent_but_unsettled_for_2_or_more_samples"] = uq >= 2;
+        o.counters["cases_quiescent_but_unsettled_for_4_or_more_samples"] = uq >= 4;
     }
 }    // namespace vf::rt
